@@ -235,7 +235,74 @@ def _t0_rows(nf):
     return rows
 
 
+# ---------------------------------------------------------------- Q3l every way of defining a target resolves its paths alike
+def _q3l(pk, ck, linked, first):
+    """Workflow in /vfs/p; the directory data is a real directory or a symbolic link to /vfs/scratch/d.  A producer
+    of data/x.txt and a consumer of data/x.txt, each defined in one of four ways (plain target; template whose
+    working directory is data; template in the workflow directory; map over one item with a template in data).
+    The same declared file must be one graph key however the two targets were defined."""
+    if not (q.in_range(pk, 4) and q.in_range(ck, 4)):
+        return q.SKIP
+    pk, ck = q.pick([0, 1, 2, 3], pk), q.pick([0, 1, 2, 3], ck)
+    linked, first = (True if linked else False), (True if first else False)
+    from gwf import AnonymousTarget, Workflow
+    w = vfs.VFS()
+    w.dirs.update({"/vfs/p", "/vfs/scratch/d"})
+    if linked:
+        w.links["/vfs/p/data"] = "/vfs/scratch/d"
+    else:
+        w.dirs.add("/vfs/p/data")
+    w.add("/vfs/p/src.txt", 1, "source")
+    vfs.install(w)
+    try:
+        wf = Workflow(working_dir="/vfs/p")
+
+        def define(kind, name, ins_rel, outs_rel):
+            """ins_rel / outs_rel are relative to the workflow directory"""
+            if kind == 0:
+                wf.target(name, inputs=ins_rel, outputs=outs_rel)
+                return
+            if kind in (1, 3):
+                strip = lambda ps: [os.path.relpath(x, "data") if x.startswith("data/") else "../" + x for x in ps]
+                tpl = AnonymousTarget(inputs=strip(ins_rel), outputs=strip(outs_rel), options={}, working_dir="data", spec="x")
+            else:
+                tpl = AnonymousTarget(inputs=ins_rel, outputs=outs_rel, options={}, working_dir=".", spec="x")
+            if kind == 3:
+                wf.map(lambda item: tpl, ["only"], name=name)
+            else:
+                wf.target_from_template(name, tpl)
+
+        order = [("Make", pk, ["src.txt"], ["data/x.txt"]), ("Use", ck, ["data/x.txt"], ["use.out"])]
+        if not first:
+            order.reverse()
+        for name, kind, ins, outs in order:
+            define(kind, name, ins, outs)
+        graph = Graph.from_targets(wf.targets, CachedFilesystem())
+        by = {}
+        for t in graph.targets.values():
+            by["Make" if t.name.startswith("Make") else "Use"] = t
+        make, use = by["Make"], by["Use"]
+        how = ["plain target", "template in data/", "template in the workflow directory", "map with a template in data/"]
+        if make not in graph.dependencies[use] or use not in graph.dependents[make]:
+            return "Use (%s) reads data/x.txt and Make (%s) writes it, but the graph has no edge (data is %s): Make provides %s, Use needs %s" % (
+                how[ck], how[pk], "a symbolic link" if linked else "a directory", make.flattened_outputs(), use.flattened_inputs())
+        if set(graph.endpoints()) != {use}:
+            return "endpoints are %s, expected Use only" % sorted(t.name for t in graph.endpoints())
+        return ""
+    finally:
+        vfs.uninstall()
+
+
+def q3l(pk: int, ck: int, linked: bool, first: bool) -> str:
+    """
+    post: _ == ""
+    """
+    return q.run(_q3l, (pk, ck, linked, first))
+
+
 QUERIES = [
+    {"name": "Q3l", "fn": q3l, "shards": [{}], "timeout": 300,
+     "bound": "producer and consumer of one file below data/, each defined as plain target / template with working directory data / template in the workflow directory / map with a template; data a directory or a symbolic link to a directory elsewhere; both definition orders"},
     {"name": "Q3a", "fn": q3a,
      "shards": {"quick": [{"wa": a, "wb": b, "shape": (a + b) % 3} for a, b in ((0, 0), (1, 0), (2, 0), (3, 2), (4, 1), (0, 3), (6, 0), (1, 7))],
                 "thorough": [{"wa": a, "wb": b, "shape": sh} for a in (0, 1, 2, 3, 4, 6, 7) for b in (0, 1, 2, 3, 4, 6, 7) for sh in range(3) if not (WDS[a][2] != "/anywhere" and WDS[b][2] != "/anywhere" and WDS[a][2] != WDS[b][2])]},
